@@ -3,9 +3,13 @@
 usage: seed_prompt.py Cnn <tag>"""
 import json, sys
 pid, tag = sys.argv[1], sys.argv[2]
+hard = len(sys.argv) > 3 and sys.argv[3] == "hard"
 p = next(json.loads(l) for l in open('/verif/properties.jsonl') if json.loads(l)['id'] == pid)
 a = p['anchors']
 wt = f"/tmp/seed/{pid}-{tag}"
+HARD = ("""Assume that ordinary randomised testing exists: someone runs the public API on tens of thousands of randomly generated inputs of ordinary size and shape and compares the results with an independent reference. Your changes should be of the kind such testing is UNLIKELY to stumble over: they should need a rare combination of features, an exact boundary count or size (e.g. exactly 256 entries, a value just over a 16-bit limit, the 4th alignment of a padded instruction), a particular ORDER of operations or of elements, a multi-step sequence of API calls, or two code sites that only misbehave together. Subtle beats loud.
+
+""" if hard else "")
 print(f"""You are helping to evaluate a verification effort for the Rust workspace zeichenreihe/feather-build-rs (Java class-file reading/writing crates `duke`, `raw_class_file`; jar tooling `dukebox`, `dukenest`; Minecraft mapping-file tooling `quill`; a Maven resolver; a binary in src/). Your job: produce TWO independent, realistic code changes ("seeded defects") that each BREAK the semantic property below while the workspace still compiles and its existing test suite still passes. They are used to test whether independent checkers notice such breakage, so they must be the kind of regression a maintainer could plausibly introduce (a refactoring slip, a wrong boundary, a forgotten case, an 'optimisation'), not sabotage that any use would expose at once.
 
 PROPERTY {pid}: {p['title']}
@@ -18,7 +22,7 @@ Your scratch git worktree (create it yourself, work ONLY there, never touch /rep
   git -C /repo worktree add --detach {wt} HEAD
 There is no network; build with `cargo ... --offline` inside the worktree (its own `target/` dir). Existing tests: `cd {wt} && cargo test --workspace --no-fail-fast --offline` (47 tests; takes a few minutes to build the first time; the machine is shared, so use `-j 6`).
 
-Requirements for EACH of the two changes (call them A and B; they must use different mechanisms / different code locations, and each must be a small diff, typically 1–15 changed lines, that does not touch tests):
+{HARD}Requirements for EACH of the two changes (call them A and B; they must use different mechanisms / different code locations, and each must be a small diff, typically 1–15 changed lines, that does not touch tests):
 1. It needs something SPECIFIC to manifest: an unusual but legal input shape, a particular boundary value, a multi-step sequence of operations, or two cooperating sites that each look fine alone. Ordinary inputs and the repository's existing tests must behave exactly as before. Do not break behaviour for all inputs.
 2. The workspace compiles and ALL existing tests pass with the change applied (run them; report the result line).
 3. A demonstration: a small self-contained Rust test or program (e.g. an extra file `tests/seed_demo_a.rs` in the relevant crate, or an example) that exercises the public API, PASSES on the unchanged code and FAILS with the change. The demonstration is kept separate from the change (the change patch must not contain it).
